@@ -689,7 +689,8 @@ pub fn run(ctx: &mut Ctx) {
         ctx.space("text-loader/rows-naming-absent-terms", "hp.obo with terms 1, 118, 200; genes_to_phenotype.txt / phenotype_to_genes.txt / phenotype.hpoa with one extra row naming HP:0000300 or HP:9999999 (absent) as first, middle or last row, for a record that also has valid rows or for a record of its own; both loaders: an error (or panic) is fine - a returned ontology must be walkable and must not list the absent id");
         let mut base = Facts::default();
         base.version = (2024, 2, 29);
-        base.terms = vec![Facts::term(1, "All"), Facts::term(118, "Phenotypic abnormality"), Facts::term(200, "A")];
+        // (the inner term's name holds a colon followed by a blank - the separator of hp.obo's tag: value lines)
+        base.terms = vec![Facts::term(1, "All"), Facts::term(118, "Phenotypic abnormality: all of them"), Facts::term(200, "A")];
         base.edges = vec![(118, 1), (200, 118)];
         for kind in [Kind::Gene, Kind::Omim, Kind::Orpha] {
             base.anns.push(Facts::ann(kind, 7, "SEVEN", Some(200)));
@@ -697,6 +698,19 @@ pub fn run(ctx: &mut Ctx) {
             base.anns.push(Facts::ann(kind, 8, "EIGHT", Some(118)));
         }
         let rendered = crate::jax::render(&base, &crate::jax::JaxOpts::default());
+        // the files without any extra row are valid: both loaders must return the ontology they describe (walkable,
+        // equal to the model) - otherwise "an error is fine" below would also excuse a loader that loses a term
+        if ctx.take() {
+            ctx.state();
+            ctx.nontrivial();
+            for transitive in [false, true] {
+                super::common::via_jax(ctx, &base, &crate::jax::JaxOpts::default(), transitive, "the valid files the rows below are added to");
+                // ... and with rows on the leaf only: no row names the inner term, so only the is_a line of the leaf refers to it
+                let mut leaf_only = base.clone();
+                leaf_only.anns.retain(|a| a.term == Some(200));
+                super::common::via_jax(ctx, &leaf_only, &crate::jax::JaxOpts::default(), transitive, "valid files, rows on the leaf only");
+            }
+        }
         for kind in [Kind::Gene, Kind::Omim, Kind::Orpha] {
             for absent in [300u32, 9_999_999] {
                 for rec in [7u32, 9] {
